@@ -229,7 +229,9 @@ tsk_variant_init(tsk_variant_t *self, const tsk_treeseq_t *tree_sequence,
         }
     }
 
-    self->genotypes = tsk_malloc(num_samples_alloc * sizeof(*self->genotypes));
+    /* Zeroed: the array can be looked at (Python: Variant.genotypes, restricted_copy)
+     * before the first successful decode */
+    self->genotypes = tsk_calloc(num_samples_alloc, sizeof(*self->genotypes));
     if (self->genotypes == NULL || self->alleles == NULL
         || self->allele_lengths == NULL) {
         ret = tsk_trace_error(TSK_ERR_NO_MEMORY);
